@@ -159,6 +159,16 @@ ssize_t read(int fd, void *buf, size_t count) {
         case 'e': sticky_eof = 1; tr("r %zu 0 early-eof", count); return 0;
         case 'b': tr("r %zu BLOCK", count); syscall(SYS_exit_group, 98); break;
         case 'k': if ((size_t)a->arg < want) want = (size_t)a->arg; if (want == 0 && count > 0) want = 1; break;
+        case 'd': {
+            /* a producer that stalls: the bytes arrive, but only after a real pause (the one fault that
+               costs wall-clock time; a reader that gives up on a slow stdin shows only then) */
+            struct timespec ts;
+            ts.tv_sec = a->arg / 1000;
+            ts.tv_nsec = (a->arg % 1000) * 1000000L;
+            tr("d %ld", a->arg);
+            syscall(SYS_nanosleep, &ts, NULL);
+            break;
+        }
         default: break;
         }
     }
